@@ -1,5 +1,6 @@
-//! Builder ops: `bmedia` (MediaPlaylistBuilder / MediaSegmentBuilder) and
-//! `btag` (the builders of the tag and attribute types).
+//! Builder ops: `bmedia` / `bown` / `media_preset` (MediaPlaylistBuilder /
+//! MediaSegmentBuilder), `bmaster` (MasterPlaylistBuilder) and `btag` (the
+//! builders of the tag and attribute types).
 //!
 //! A script is a multi-line text, one command per line (`\n` separated): the
 //! command word, then a single space, then the rest of the line as the
@@ -12,17 +13,21 @@ use std::convert::TryFrom;
 use std::str::FromStr;
 use std::time::Duration;
 
+use hls_m3u8::builder::{MediaPlaylistBuilder, MediaSegmentBuilder};
 use hls_m3u8::tags::{
     ExtInf, ExtXByteRange, ExtXDateRange, ExtXKey, ExtXMap, ExtXMedia, ExtXProgramDateTime,
-    ExtXSessionData, ExtXStart, SessionData,
+    ExtXSessionData, ExtXSessionKey, ExtXStart, SessionData, VariantStream,
 };
 use hls_m3u8::types::{
     Channels, DecryptionKey, EncryptionMethod, Float, HdcpLevel, InStreamId, KeyFormat,
     KeyFormatVersions, MediaType, PlaylistType, StreamData, Value,
 };
-use hls_m3u8::{MediaPlaylist, MediaSegment};
+use hls_m3u8::{MasterPlaylist, MediaPlaylist, MediaSegment};
 
-use crate::{hex_digit, observe, text_arg, value_result, Media, BADINPUT, BADOP, ERR};
+use crate::{
+    guard, hex_digit, observe, own_result, text_arg, value_result, Master, Media, BADINPUT, BADOP,
+    ERR, PANIC,
+};
 
 pub(crate) const BADSCRIPT: &str = "badscript";
 const NOBUILD: &str = "nobuild";
@@ -103,6 +108,195 @@ fn finish(r: Result<String, Stop>) -> String {
 
 // ---------------------------------------------------------------- bmedia
 
+/// The playlist-level setter commands of a media script (`bmedia`, `bown`,
+/// `media_preset`), applied to `b`; `Ok(false)`: `cmd` is not one of them.
+///
+/// `Tn <ns>` target duration, `M <n>` media sequence, `D <n>` discontinuity
+/// sequence, `P event|vod|none` playlist type, `I 0|1` i-frames only,
+/// `N 0|1` independent segments, `E 0|1` end list, `S <#EXT-X-START line>`,
+/// `X <ns>` allowable excess duration, `U <text>` (pending unknown tag),
+/// `unknown` (`.unknown(pending tags)`).
+fn playlist_cmd<'a>(
+    b: &mut MediaPlaylistBuilder<'a>,
+    unknown: &mut Vec<&'a str>,
+    cmd: &str,
+    arg: Option<&'a str>,
+) -> Result<bool, Stop> {
+    match cmd {
+        "Tn" => {
+            b.target_duration(dur(arg)?);
+        }
+        "M" => {
+            b.media_sequence(num::<usize>(arg)?);
+        }
+        "D" => {
+            b.discontinuity_sequence(num::<usize>(arg)?);
+        }
+        "P" => match need(arg)? {
+            "event" => {
+                b.playlist_type(PlaylistType::Event);
+            }
+            "vod" => {
+                b.playlist_type(PlaylistType::Vod);
+            }
+            // The generated setter is `playlist_type<V: Into<PlaylistType>>`
+            // (`strip_option` + `into`), so `None::<PlaylistType>` does not
+            // compile and the public API has no way to reset the field:
+            // `P none` is accepted and does nothing.
+            "none" => {}
+            _ => return Err(BADSCRIPT),
+        },
+        "I" => {
+            b.has_i_frames_only(flag(arg)?);
+        }
+        "N" => {
+            b.has_independent_segments(flag(arg)?);
+        }
+        "E" => {
+            b.has_end_list(flag(arg)?);
+        }
+        "S" => {
+            let start = ExtXStart::try_from(need(arg)?).map_err(|_| ERR)?;
+            b.start(start);
+        }
+        "X" => {
+            b.allowable_excess_duration(dur(arg)?);
+        }
+        "U" => unknown.push(need(arg)?),
+        "unknown" => {
+            no_arg(arg)?;
+            let tags: Vec<Cow<'a, str>> = unknown.iter().map(|t| Cow::Borrowed(*t)).collect();
+            b.unknown(tags);
+        }
+        _ => return Ok(false),
+    }
+    Ok(true)
+}
+
+/// One segment under construction (`bmedia` / `bown` scripts between `seg`
+/// and `end`, and the mini scripts of `laws MediaSegment`).
+///
+/// `MediaSegmentBuilder` does not hand its `ExtInf` back, so the last one
+/// given to `.duration(..)` and the text of a `title` command are kept here.
+struct Seg<'a> {
+    b: MediaSegmentBuilder<'a>,
+    inf: Option<ExtInf<'a>>,
+    title: Option<&'a str>,
+}
+
+impl<'a> Seg<'a> {
+    fn new() -> Self {
+        Seg {
+            b: MediaSegment::builder(),
+            inf: None,
+            title: None,
+        }
+    }
+
+    fn set_inf(&mut self, inf: ExtInf<'a>) {
+        self.b.duration(inf.clone());
+        self.inf = Some(inf);
+    }
+
+    /// The segment-level commands; `Ok(false)`: `cmd` is not one of them.
+    ///
+    /// * `uri <text>`, `num <n>` (`.number(Some(n))`), `disc 0|1`
+    ///   (`.has_discontinuity(b)`), `tag <line>` (one segment tag, parsed).
+    /// * `dur <ns>`: `ExtInf::new(d)`; after a `title <t>` of the same segment
+    ///   `ExtInf::with_title(d, t)`.
+    /// * `dur2 <ns0> <ns>`: `ExtInf::new(d0)` then `.set_duration(d)`; after a
+    ///   `title <t>` of the same segment also `.set_title(Some(t))`.
+    /// * `title <t>`: remembered for later `dur` / `dur2`; if the segment
+    ///   already got an `ExtInf` (`dur`, `dur2`, `tag #EXTINF:`), that value
+    ///   gets `.set_title(Some(t))` and is given to `.duration(..)` again.
+    fn cmd(&mut self, cmd: &str, arg: Option<&'a str>) -> Result<bool, Stop> {
+        match cmd {
+            "dur" => {
+                let d = dur(arg)?;
+                let inf = match self.title {
+                    None => ExtInf::new(d),
+                    Some(t) => ExtInf::with_title(d, t),
+                };
+                self.set_inf(inf);
+            }
+            "dur2" => {
+                let (ns0, ns) = need(arg)?.split_once(' ').ok_or(BADSCRIPT)?;
+                let (d0, d) = (dur(Some(ns0))?, dur(Some(ns))?);
+                let mut inf = ExtInf::new(d0);
+                inf.set_duration(d);
+                if let Some(t) = self.title {
+                    inf.set_title(Some(t));
+                }
+                self.set_inf(inf);
+            }
+            "title" => {
+                let t = need(arg)?;
+                self.title = Some(t);
+                if let Some(mut inf) = self.inf.take() {
+                    inf.set_title(Some(t));
+                    self.set_inf(inf);
+                }
+            }
+            "num" => {
+                self.b.number(Some(num::<usize>(arg)?));
+            }
+            "disc" => {
+                self.b.has_discontinuity(flag(arg)?);
+            }
+            "tag" => {
+                let line = need(arg)?;
+                if line.starts_with("#EXTINF:") {
+                    let inf = ExtInf::try_from(line).map_err(|_| ERR)?;
+                    self.set_inf(inf);
+                } else if line.starts_with("#EXT-X-BYTERANGE:") {
+                    self.b
+                        .byte_range(ExtXByteRange::try_from(line).map_err(|_| ERR)?);
+                } else if line == "#EXT-X-DISCONTINUITY" {
+                    self.b.has_discontinuity(true);
+                } else if line.starts_with("#EXT-X-KEY:") {
+                    self.b.push_key(ExtXKey::try_from(line).map_err(|_| ERR)?);
+                } else if line.starts_with("#EXT-X-MAP:") {
+                    self.b.map(ExtXMap::try_from(line).map_err(|_| ERR)?);
+                } else if line.starts_with("#EXT-X-PROGRAM-DATE-TIME:") {
+                    self.b
+                        .program_date_time(ExtXProgramDateTime::try_from(line).map_err(|_| ERR)?);
+                } else if line.starts_with("#EXT-X-DATERANGE:") {
+                    self.b
+                        .date_range(ExtXDateRange::try_from(line).map_err(|_| ERR)?);
+                } else {
+                    return Err(ERR);
+                }
+            }
+            "uri" => {
+                self.b.uri(need(arg)?);
+            }
+            _ => return Ok(false),
+        }
+        Ok(true)
+    }
+
+    fn build(&self) -> Result<MediaSegment<'a>, Stop> {
+        self.b.build().map_err(|_| ERR)
+    }
+}
+
+/// One segment from a mini script of segment-level commands only
+/// (`laws MediaSegment`): `Err(badscript)` for anything else or a malformed
+/// argument, `Err(err)` for a rejected `tag` line or a failing `.build()`.
+pub(crate) fn build_segment(script: &str) -> Result<MediaSegment<'_>, Stop> {
+    let mut seg = Seg::new();
+    for (cmd, arg) in commands(script) {
+        if !seg.cmd(cmd, arg)? {
+            return Err(BADSCRIPT);
+        }
+    }
+    seg.build()
+}
+
+/// What a media script built: `None` without a `build` command, else the
+/// result of the last `build`.
+type Built = Option<Result<MediaPlaylist<'static>, String>>;
+
 /// `bmedia <hex script>`:
 /// `badinput` | `badscript` | `nobuild` | `err` | `panic` | `ok (mres …)`
 /// (the last one exactly as the `media` op prints a parsed value).
@@ -112,107 +306,57 @@ pub(crate) fn op_bmedia(args: &[&str]) -> String {
     };
     // The builders borrow their strings; this is a one-shot tool, so leak.
     let script: &'static str = Box::leak(script.into_boxed_str());
-    finish(run_bmedia(script))
+    finish(run_bmedia(script).map(|built| match built {
+        None => NOBUILD.to_string(),
+        Some(Err(_)) => ERR.to_string(),
+        Some(Ok(p)) => value_result::<Media>(&p, None, script.len()),
+    }))
 }
 
-fn run_bmedia(script: &'static str) -> Result<String, Stop> {
+/// `bown <hex script>`: the script of `bmedia`; the built value is observed
+/// like `own_media` observes a parsed one:
+/// `badinput` | `badscript` | `nobuild` | `err` | `panic` | `ok (own …)`.
+pub(crate) fn op_bown(args: &[&str]) -> String {
+    let Some(script) = text_arg(args, 0) else {
+        return BADINPUT.to_string();
+    };
+    let script: &'static str = Box::leak(script.into_boxed_str());
+    finish(run_bmedia(script).map(|built| match built {
+        None => NOBUILD.to_string(),
+        Some(Err(_)) => ERR.to_string(),
+        Some(Ok(p)) => own_result::<Media>(&p),
+    }))
+}
+
+fn run_bmedia(script: &'static str) -> Result<Built, Stop> {
     let mut b = MediaPlaylist::builder();
     let mut unknown: Vec<&'static str> = Vec::new();
     let mut list: Vec<MediaSegment<'static>> = Vec::new();
-    let mut seg = MediaSegment::builder();
-    let mut out: Option<Result<MediaPlaylist<'static>, String>> = None;
+    let mut seg: Seg<'static> = Seg::new();
+    let mut out: Built = None;
 
     for (cmd, arg) in commands(script) {
+        if playlist_cmd(&mut b, &mut unknown, cmd, arg)? || seg.cmd(cmd, arg)? {
+            continue;
+        }
         match cmd {
-            "Tn" => {
-                b.target_duration(dur(arg)?);
-            }
-            "M" => {
-                b.media_sequence(num::<usize>(arg)?);
-            }
-            "D" => {
-                b.discontinuity_sequence(num::<usize>(arg)?);
-            }
-            "P" => match need(arg)? {
-                "event" => {
-                    b.playlist_type(PlaylistType::Event);
-                }
-                "vod" => {
-                    b.playlist_type(PlaylistType::Vod);
-                }
-                // The generated setter is `playlist_type<V: Into<PlaylistType>>`
-                // (`strip_option` + `into`), so `None::<PlaylistType>` does not
-                // compile and the public API has no way to reset the field:
-                // `P none` is accepted and does nothing.
-                "none" => {}
-                _ => return Err(BADSCRIPT),
-            },
-            "I" => {
-                b.has_i_frames_only(flag(arg)?);
-            }
-            "N" => {
-                b.has_independent_segments(flag(arg)?);
-            }
-            "E" => {
-                b.has_end_list(flag(arg)?);
-            }
-            "S" => {
-                let start = ExtXStart::try_from(need(arg)?).map_err(|_| ERR)?;
-                b.start(start);
-            }
-            "X" => {
-                b.allowable_excess_duration(dur(arg)?);
-            }
-            "U" => unknown.push(need(arg)?),
-            "unknown" => {
-                no_arg(arg)?;
-                let tags: Vec<Cow<'static, str>> =
-                    unknown.iter().map(|t| Cow::Borrowed(*t)).collect();
-                b.unknown(tags);
-            }
             "seg" => {
                 let a = need(arg)?;
                 if a == "-" {
-                    seg = MediaSegment::builder();
+                    seg = Seg::new();
                 } else {
                     let n = num::<usize>(arg)?;
-                    seg = MediaSegment::builder();
-                    seg.number(Some(n));
+                    seg = Seg::new();
+                    seg.b.number(Some(n));
                 }
-            }
-            "dur" => {
-                seg.duration(ExtInf::new(dur(arg)?));
-            }
-            "tag" => {
-                let line = need(arg)?;
-                if line.starts_with("#EXTINF:") {
-                    seg.duration(ExtInf::try_from(line).map_err(|_| ERR)?);
-                } else if line.starts_with("#EXT-X-BYTERANGE:") {
-                    seg.byte_range(ExtXByteRange::try_from(line).map_err(|_| ERR)?);
-                } else if line == "#EXT-X-DISCONTINUITY" {
-                    seg.has_discontinuity(true);
-                } else if line.starts_with("#EXT-X-KEY:") {
-                    seg.push_key(ExtXKey::try_from(line).map_err(|_| ERR)?);
-                } else if line.starts_with("#EXT-X-MAP:") {
-                    seg.map(ExtXMap::try_from(line).map_err(|_| ERR)?);
-                } else if line.starts_with("#EXT-X-PROGRAM-DATE-TIME:") {
-                    seg.program_date_time(ExtXProgramDateTime::try_from(line).map_err(|_| ERR)?);
-                } else if line.starts_with("#EXT-X-DATERANGE:") {
-                    seg.date_range(ExtXDateRange::try_from(line).map_err(|_| ERR)?);
-                } else {
-                    return Err(ERR);
-                }
-            }
-            "uri" => {
-                seg.uri(need(arg)?);
             }
             "end" => match need(arg)? {
                 "push" => {
-                    let s = seg.build().map_err(|_| ERR)?;
+                    let s = seg.build()?;
                     b.push_segment(s);
                 }
                 "list" => {
-                    let s = seg.build().map_err(|_| ERR)?;
+                    let s = seg.build()?;
                     list.push(s);
                 }
                 _ => return Err(BADSCRIPT),
@@ -228,11 +372,129 @@ fn run_bmedia(script: &'static str) -> Result<String, Stop> {
             _ => return Err(BADSCRIPT),
         }
     }
+    Ok(out)
+}
+
+// ---------------------------------------------------------------- media_preset
+
+/// `media_preset <hex script> <hex text>`: the script may only hold the
+/// playlist-level setter commands (see [`playlist_cmd`]); they are applied to a
+/// fresh `MediaPlaylist::builder()`, then `builder.parse(text)`.
+/// `badinput` | `badscript` | `err` | `panic` | `ok (mres …)` as the `media` op
+/// prints it (the re-parse of the written text is a plain `try_from`, without
+/// the preset).
+pub(crate) fn op_media_preset(args: &[&str]) -> String {
+    let (Some(script), Some(text)) = (text_arg(args, 0), text_arg(args, 1)) else {
+        return BADINPUT.to_string();
+    };
+    if args.len() != 2 {
+        return BADINPUT.to_string();
+    }
+    finish(run_media_preset(&script, &text))
+}
+
+fn run_media_preset(script: &str, text: &str) -> Result<String, Stop> {
+    let mut b = MediaPlaylist::builder();
+    let mut unknown: Vec<&str> = Vec::new();
+    for (cmd, arg) in commands(script) {
+        if !playlist_cmd(&mut b, &mut unknown, cmd, arg)? {
+            return Err(BADSCRIPT);
+        }
+    }
+    match guard(|| b.parse(text)) {
+        None => Ok(PANIC.to_string()),
+        Some(Err(_)) => Err(ERR),
+        Some(Ok(p)) => Ok(value_result::<Media>(&p, None, text.len())),
+    }
+}
+
+// ---------------------------------------------------------------- bmaster
+
+/// `bmaster <hex script>`: a master playlist through `MasterPlaylist::builder()`.
+/// `badinput` | `badscript` | `nobuild` | `err` | `panic` | `ok (ares …)`
+/// (the last one exactly as the `master` op prints a parsed value).
+///
+/// Item commands parse one line (a rejected line is `err`) and append it to a
+/// pending list, which only reaches the builder through `set <list>`:
+/// `media <#EXT-X-MEDIA line>`, `variant <#EXT-X-I-FRAME-STREAM-INF line>`,
+/// `streaminf <#EXT-X-STREAM-INF line>` + later `vuri <uri>` (the variant is
+/// parsed from `"<line>\n<uri>"` and appended when `vuri` arrives),
+/// `sdata <#EXT-X-SESSION-DATA line>`, `skey <#EXT-X-SESSION-KEY line>`,
+/// `unknown <text>` (not parsed).
+/// `set media|variants|sdata|skeys|unknown` calls `.media(..)` /
+/// `.variant_streams(..)` / `.session_data(..)` / `.session_keys(..)` /
+/// `.unknown_tags(..)` with a copy of the pending list (which is kept).
+/// `indep 0|1`, `start <#EXT-X-START line>`, `build`.
+pub(crate) fn op_bmaster(args: &[&str]) -> String {
+    let Some(script) = text_arg(args, 0) else {
+        return BADINPUT.to_string();
+    };
+    let script: &'static str = Box::leak(script.into_boxed_str());
+    finish(run_bmaster(script))
+}
+
+fn run_bmaster(script: &'static str) -> Result<String, Stop> {
+    let mut b = MasterPlaylist::builder();
+    let mut media: Vec<ExtXMedia<'static>> = Vec::new();
+    let mut variants: Vec<VariantStream<'static>> = Vec::new();
+    let mut sdata: Vec<ExtXSessionData<'static>> = Vec::new();
+    let mut skeys: Vec<ExtXSessionKey<'static>> = Vec::new();
+    let mut unknown: Vec<Cow<'static, str>> = Vec::new();
+    let mut streaminf: Option<&'static str> = None;
+    let mut out: Option<Result<MasterPlaylist<'static>, _>> = None;
+
+    for (cmd, arg) in commands(script) {
+        match cmd {
+            "media" => media.push(ExtXMedia::try_from(need(arg)?).map_err(|_| ERR)?),
+            "variant" => variants.push(VariantStream::try_from(need(arg)?).map_err(|_| ERR)?),
+            "streaminf" => streaminf = Some(need(arg)?),
+            "vuri" => {
+                let uri = need(arg)?;
+                let line = streaminf.take().ok_or(BADSCRIPT)?;
+                // The variant borrows its text: leak, as for the script.
+                let text: &'static str = Box::leak(format!("{}\n{}", line, uri).into_boxed_str());
+                variants.push(VariantStream::try_from(text).map_err(|_| ERR)?);
+            }
+            "sdata" => sdata.push(ExtXSessionData::try_from(need(arg)?).map_err(|_| ERR)?),
+            "skey" => skeys.push(ExtXSessionKey::try_from(need(arg)?).map_err(|_| ERR)?),
+            "unknown" => unknown.push(Cow::Borrowed(need(arg)?)),
+            "set" => match need(arg)? {
+                "media" => {
+                    b.media(media.clone());
+                }
+                "variants" => {
+                    b.variant_streams(variants.clone());
+                }
+                "sdata" => {
+                    b.session_data(sdata.clone());
+                }
+                "skeys" => {
+                    b.session_keys(skeys.clone());
+                }
+                "unknown" => {
+                    b.unknown_tags(unknown.clone());
+                }
+                _ => return Err(BADSCRIPT),
+            },
+            "indep" => {
+                b.has_independent_segments(flag(arg)?);
+            }
+            "start" => {
+                let start = ExtXStart::try_from(need(arg)?).map_err(|_| ERR)?;
+                b.start(start);
+            }
+            "build" => {
+                no_arg(arg)?;
+                out = Some(b.build());
+            }
+            _ => return Err(BADSCRIPT),
+        }
+    }
 
     match out {
         None => Ok(NOBUILD.to_string()),
         Some(Err(_)) => Ok(ERR.to_string()),
-        Some(Ok(p)) => Ok(value_result::<Media>(&p, None, script.len())),
+        Some(Ok(p)) => Ok(value_result::<Master>(&p, None, script.len())),
     }
 }
 
